@@ -106,6 +106,16 @@ def pdpCheck (toks : List String) : Option String := do
   let as := toNats acts
   pure s!"check={bit (Rl4co.Pdp.check i as)} feas={bit (pdpFeas i as)} feasT={bit (pdpFeasTour i as)}"
 
+/-- `tspfam.pdp.starts h force B k`: the model of `get_num_starts` / `select_start_nodes` and, per selected
+row, whether the reset mask admits that start -/
+def pdpStarts (toks : List String) : Option String := do
+  let [hd] ← parseSections toks | none
+  let [h, f, B, k] := hd | none
+  let i : Rl4co.Pdp.Inst := { h := h.toNat, force := f != 0, D := fun _ _ => 0 }
+  let sel := Rl4co.Pdp.selectStartNodes i B.toNat k.toNat
+  let s0 := Rl4co.Pdp.env.reset i
+  pure s!"num={Rl4co.Pdp.numStarts i} starts={natsStr sel} feas={bits (sel.map (fun a => Rl4co.Pdp.env.mask i s0 a))}"
+
 /-- `tspfam.smtwtp.episode n | p[0..n] | d[0..n] | w[0..n] | actions` -/
 def smtwtpEpisode (toks : List String) : Option String := do
   let [hd, ps, ds, ws, acts] ← parseSections toks | none
@@ -120,7 +130,7 @@ def smtwtpEpisode (toks : List String) : Option String := do
 def handlers : List (String × (List String → Option String)) :=
   [("tspfam.tsp.episode", tspEpisode), ("tspfam.tsp.check", tspCheck), ("tspfam.tsp.batch", tspBatch),
    ("tspfam.atsp.episode", atspEpisode), ("tspfam.atsp.check", atspCheck), ("tspfam.atsp.batch", atspBatch),
-   ("tspfam.pdp.episode", pdpEpisode), ("tspfam.pdp.check", pdpCheck),
+   ("tspfam.pdp.episode", pdpEpisode), ("tspfam.pdp.check", pdpCheck), ("tspfam.pdp.starts", pdpStarts),
    ("tspfam.smtwtp.episode", smtwtpEpisode)]
 
 end Rl4co.Driver.Tspfam
